@@ -231,7 +231,8 @@ def pyfunc(name):
 # --------------------------------------------------------------------------- the array class
 
 def _is_objmask(k):
-    return isinstance(k, _nd) and k.dtype == object and k.size > 0 and \
+    # an object array of (symbolic) booleans; an EMPTY object array can only be an (empty) mask in index position
+    return isinstance(k, _nd) and k.dtype == object and \
         builtins.all(isinstance(e, (SymBool, bool, _np.bool_)) for e in k.view(_nd).flat)
 
 
